@@ -182,7 +182,7 @@ def _params(draw):
     """Search parameters attached to one specification (or to one file: specification)."""
     p = {}
     if draw(st.integers(0, 2)) == 0:
-        p["e"] = draw(st.sampled_from([0, 0.1, 0.2, 0.25, 0.34]))
+        p["e"] = draw(st.sampled_from([0, 0.1, 0.2, 0.25, 0.34, 0.5, 0.6]))
     if draw(st.integers(0, 2)) == 0:
         p["o"] = draw(st.integers(1, 8))
     r = draw(st.integers(0, 5))
@@ -190,6 +190,10 @@ def _params(draw):
         p["noindels"] = True
     elif r == 1:
         p["indels"] = True  # overrides --no-indels and a file-wide noindels
+    if p.get("e", 0) >= 0.5:
+        # very tolerant adapters only without indels (completeness is claimed there for every adapter type)
+        p.pop("indels", None)
+        p["noindels"] = True
     return p
 
 
@@ -248,8 +252,18 @@ def cli_case(draw):
         spec = draw(st.sampled_from(specs))
         sn = spec["seq"]
         k = int(spec["e"] * (len(sn) - sn.count("N")))
-        r = draw(st.integers(0, 6))
-        if r == 6:
+        r = draw(st.integers(0, 7))
+        if r == 7 and k >= 1 and not spec["indels"]:
+            # the adapter with exactly as many substitutions as it tolerates, at distinct places (for very
+            # tolerant adapters more bases differ than agree)
+            mid = list(sn.replace("N", "A"))
+            for p_ in draw(st.lists(st.integers(0, len(mid) - 1), min_size=min(k, len(mid)), max_size=min(k, len(mid)),
+                                    unique=True)):
+                mid[p_] = draw(st.sampled_from([c for c in "ACGT" if c != mid[p_]]))
+            left = draw(st.text(alphabet="ACGT", max_size=4)) if spec["type"] in ("back", "suffix", "niback") else ""
+            right = draw(st.text(alphabet="ACGT", max_size=4)) if spec["type"] in ("front", "prefix", "rightmost") else ""
+            sc["reads"].append(left + "".join(mid) + right)
+        elif r == 6:
             # the adapter with up to k+1 of its bases unreadable (N in the read counts as a mismatch unless
             # --match-read-wildcards is given), preferably where the adapter has an A
             mid = list(sn.replace("N", "A"))
